@@ -67,6 +67,29 @@ def noisy_world(seed, n_chroms=3):
                 w.genes.append(ag)
                 for _ in range(12):
                     w.read_from_transcript(ag.hidden[0], mode="full", jitter=0, polya=True, flag=0 if os_ == "+" else 16)
+    # a gene whose two annotated isoforms lie 3 kb apart (two separate read clusters); the reads of the second cluster belong to an unannotated
+    # isoform that ends 300 bp beyond the annotated end of the gene: the gene record must contain it in both annotation files
+    for ci, chrom in enumerate(main_chroms[:2]):
+        last = max([g.end for g in w.genes if g.chrom == chrom] + [1000]) + 3000
+        if last + 9000 < w.chrom_len(chrom):
+            st_ = "+-"[ci % 2]
+            t1x = [(last, last + 200), (last + 500, last + 700), (last + 1000, last + 1200)]
+            t2x = [(last + 5000, last + 5200), (last + 5500, last + 5700), (last + 6000, last + 6200)]
+            nvx = [(last + 5000, last + 5200), (last + 5500, last + 5700), (last + 6100, last + 6500)]
+            if st_ == "-":
+                span_ = 6500
+                t1x, t2x, nvx = [sorted((2 * last + span_ - b, 2 * last + span_ - a) for a, b in x) for x in (t1x, t2x, nvx)]
+            g2 = _G("TWR%d" % (ci + 1), chrom, st_)
+            g2.transcripts.append(_T(g2.id + ".t1", g2.id, chrom, st_, t1x, True, "two-region-gene"))
+            g2.transcripts.append(_T(g2.id + ".t2", g2.id, chrom, st_, t2x, True, "two-region-gene"))
+            g2.hidden.append(_T(g2.id + ".h1", g2.id, chrom, st_, nvx, False, "novel-beyond-the-gene-end-in-the-second-region"))
+            for t_ in g2.transcripts + g2.hidden:
+                for intr in t_.introns:
+                    w.plant_sites(chrom, intr, st_)
+            w.genes.append(g2)
+            for _ in range(10):
+                w.read_from_transcript(g2.transcripts[0], mode="full", jitter=0, polya=True, flag=0 if st_ == "+" else 16)
+                w.read_from_transcript(g2.hidden[0], mode="full", jitter=0, polya=True, flag=0 if st_ == "+" else 16)
     # reads with a reference intron chain that end at an alternative polyA site far downstream of the annotated end
     for ci, chrom in enumerate(main_chroms):
         last = max([g.end for g in w.genes if g.chrom == chrom] + [1000]) + 3000
